@@ -22,6 +22,7 @@ fn mirror(mb: &sym::Mailbox) -> sym::Mailbox {
 }
 
 //@ obligation: C16.terms_mirror.mobility
+//@ status: experimental
 //@ domain: bounded(<= 2 knights, bishops, rooks, queens of the evaluated side)
 //@ functions: engine/eval/mobility_and_king_safety.rs::mobility_and_opp_king_safety_for
 //@ timeout: 3000
